@@ -563,12 +563,20 @@ func kvfsOverlap(c *Ctx, what, whKind string, pause int) {
 	}
 	var mu sync.Mutex
 	writesA, aHeld, bRunning := 0, false, false
+	nA, nB := 0, 0
 	paused, resume := make(chan struct{}), make(chan struct{})
 	partial := ""
 	polls := 0
 	verifhook.Set(func(name string, detail []string) error {
 		mu.Lock()
 		held, inB := aHeld, bRunning
+		if name == "kvfs.write" {
+			if inB {
+				nB++
+			} else {
+				nA++
+			}
+		}
 		mu.Unlock()
 		if inB || held {
 			// a step of B while A is held, or of A after B finished: the reader looks
@@ -632,7 +640,26 @@ func kvfsOverlap(c *Ctx, what, whKind string, pause int) {
 		}
 		return nil
 	})
-	c.EmitR(op, "skip", "skip")
+	lab := func(r string) string {
+		switch r {
+		case scanToName(idX):
+			return "X"
+		case scanToName(idY):
+			return "Y"
+		}
+		return r
+	}
+	if resB == "not-run" || resA == "timeout" {
+		c.EmitR(op, "skip", "skip")
+	} else {
+		// the model over the shared staging namespace: names differ (a guid each), O_EXCL
+		same := 0
+		if idX == idY {
+			same = 1
+		}
+		c.EmitR(op, fmt.Sprintf("kvfs2 1 0 %d %d %d %d", same, nA, nB, pause),
+			fmt.Sprintf("resA=%s resB=%s afterB=%s afterA=%s staging=%d", resA, resB, lab(afterB), lab(afterA), st))
+	}
 	cls := func(k string) string {
 		if what == "mirror" && k == "ok-but-not-served" {
 			return "mirror-not-served"
